@@ -887,7 +887,9 @@ func (e *Eng) EdgeLit(b *ssa.BasicBlock, succ int) (Lit, bool) {
 	return l, true
 }
 
-// EdgeLits returns every literal edge b->Succs[succ] can assert (see condAlternatives).
+// EdgeLits returns every literal edge b->Succs[succ] can assert on some path: the condition as written,
+// the joined expressions of a joined boolean (condAlternatives), and the condition with the joined values
+// inside it replaced by each value they can stand for.
 func (e *Eng) EdgeLits(b *ssa.BasicBlock, succ int) []Lit {
 	if len(b.Instrs) == 0 {
 		return nil
@@ -896,17 +898,102 @@ func (e *Eng) EdgeLits(b *ssa.BasicBlock, succ int) []Lit {
 	if !ok {
 		return nil
 	}
+	key := [2]interface{}{iff, succ}
+	if ls, ok := e.edgeLitsCache[key]; ok {
+		return ls
+	}
 	var out []Lit
+	seen := map[string]bool{}
+	add := func(l Lit) {
+		k := l.String() + "|" + l.Alt
+		if !seen[k] {
+			seen[k] = true
+			out = append(out, l)
+		}
+	}
+	fn := b.Parent()
 	for _, a := range condAlternatives(iff.Cond) {
-		l := e.CondLit(b.Parent(), a.v)
+		l := e.CondLit(fn, a.v)
 		if a.neg {
 			l.Pos = !l.Pos
 		}
 		if succ == 1 {
 			l.Pos = !l.Pos
 		}
-		out = append(out, l)
+		add(l)
+		// phis inside the expression
+		var phis []*ssa.Phi
+		vis := map[ssa.Value]bool{}
+		var collect func(v ssa.Value, d int)
+		collect = func(v ssa.Value, d int) {
+			if v == nil || vis[v] || d > 10 {
+				return
+			}
+			vis[v] = true
+			if p, ok := v.(*ssa.Phi); ok {
+				if !inductionPhi(p, 0) && !inductionPhi(p, -1) {
+					phis = append(phis, p)
+				}
+				return
+			}
+			if in, ok := v.(ssa.Instruction); ok && in.Parent() == fn {
+				if _, isA := v.(*ssa.Alloc); isA {
+					return
+				}
+				for _, op := range in.Operands(nil) {
+					if *op != nil {
+						collect(*op, d+1)
+					}
+				}
+			}
+		}
+		collect(a.v, 0)
+		if len(phis) == 0 || len(phis) > 3 {
+			continue
+		}
+		combos := 1
+		for _, p := range phis {
+			combos *= len(p.Edges)
+		}
+		if combos > 24 {
+			continue
+		}
+		idx := make([]int, len(phis))
+		for {
+			sub := map[*ssa.Phi]ssa.Value{}
+			for i, p := range phis {
+				if p.Edges[idx[i]] != ssa.Value(p) {
+					sub[p] = p.Edges[idx[i]]
+				}
+			}
+			curPhiSub = sub
+			l2 := e.CondLit(fn, a.v)
+			curPhiSub = nil
+			if a.neg {
+				l2.Pos = !l2.Pos
+			}
+			if succ == 1 {
+				l2.Pos = !l2.Pos
+			}
+			add(l2)
+			k := 0
+			for k < len(phis) {
+				idx[k]++
+				if idx[k] < len(phis[k].Edges) {
+					break
+				}
+				idx[k] = 0
+				k++
+			}
+			if k >= len(phis) {
+				break
+			}
+		}
 	}
+	if e.edgeLitsCache == nil {
+		e.edgeLitsCache = map[[2]interface{}][]Lit{}
+	}
+	e.edgeLitsCache[key] = out
 	return out
 }
 
@@ -955,6 +1042,25 @@ func consequences(l Lit) []Lit {
 	for _, atom := range []string{l.Atom, l.Alt} {
 		if atom == "" {
 			continue
+		}
+		// errors.Is(err, target) holds only for a non-nil err
+		for _, pre := range []string{"errors.Is(", "errors.As("} {
+			if strings.HasPrefix(atom, pre) && strings.HasSuffix(atom, ")") {
+				in := atom[len(pre) : len(atom)-1]
+				depth := 0
+				for i := 0; i < len(in); i++ {
+					switch in[i] {
+					case '(', '[':
+						depth++
+					case ')', ']':
+						depth--
+					}
+					if depth == 0 && in[i] == ',' {
+						out = append(out, Lit{Atom: "(" + in[:i] + " == nil)", Pos: false})
+						break
+					}
+				}
+			}
 		}
 		for _, ops := range [][2]string{{"<t", "==t"}, {"<", "=="}} {
 			if a, b, ok := splitTop(atom, ops[0]); ok {
